@@ -18,6 +18,11 @@ CHECKS = {
    note="Theorems are at token/AST level (plus tokenizer lemma for canonical spacing); arbitrary spacing, zero counts and U0/H0 spellings are covered by the correspondence and by the oracle on the real code (each spelling of a generated tree must compile to the tree's string; exhaustive strings over .()+ up to length 7/9).",
    technique="Lean 4 theorems (structural induction on structure trees) + differential correspondence",
    design="5.8"),
+ "C20": dict(
+   text="Proof (PARTIAL): PepperProps/C20.lean proves over the model PepperModel/Fs.lean (file-name logic of compiler.main, spurious_design.main/design + find_file, finish.main/finish: defaulting, suffix stripping, scratch names) that two runs whose --output/--save/--seqs/--strands names and temp names are pairwise distinct and which pass a decidable cross-collision check have disjoint write sets and do not read or probe each other's writes (footprints_disjoint; scratch files of different temp names can never coincide, by injectivity of string append), and that in an abstract file system ANY list of N processes (interaction trees: the next operation may depend on everything read so far) that stay inside pairwise independent footprints end, under EVERY complete interleaving, in the same files as when run one after another in any order, each process reading the same values (commute, commute_schedules, sequential_order_irrelevant, noninterference). PARTIAL: that the real processes touch nothing outside the modelled footprint is an OS-level fact, observed rather than proved: every tool variant is run under strace -f (open-for-write/creat/unlink/rename/mkdir/... and stat family) and with directory snapshots, and the written / read / probed paths must equal the model's footprint and the set the property allows; then schedules of 2..8 real concurrent processes released from a post-import barrier with random delays are compared byte for byte (time-stamp line masked) with the same commands run sequentially.",
+   note="Design runs use --just-files (NUPACK / spuriousSSM absent); the finish input .mfe is built in-process. Sources read by a compile are an opaque parameter of the model (harness checks they are .sys/.comp/--fixed files only). File contents are opaque. Interference through anything other than the directory (e.g. machine load, environment) is out of scope. 30 / 300 schedules over 3+1 / 6+4 systems.",
+   technique="Lean 4 theorems (string-append injectivity; frame lemma + interleaving invariant by induction on the schedule) + strace/snapshot footprint oracle + real concurrent vs sequential differential runs",
+   design="5.20"),
 }
 
 NOT_YET = {}
